@@ -22,10 +22,11 @@ def hexStep (acc : Option Nat) (c : UInt8) : Option Nat :=
 def hexValue (s : Bytes) : Option Nat := if s.isEmpty then none else s.foldl hexStep (some 0)
 
 /-- RFC 7230 §4.1 (no extensions, no trailers): `chunked-body = *chunk last-chunk CRLF`,
-`chunk = chunk-size CRLF chunk-data CRLF` with `chunk-size > 0`; second index = the decoded payload -/
+`chunk = chunk-size CRLF chunk-data CRLF` with `chunk-size > 0`; second index = the decoded payload.
+The size line is bounded by the documented line limit of the library (`Socket::readLine`, 16000 bytes). -/
 inductive ChunkedBody : Bytes → Bytes → Prop
   | last : ChunkedBody [48, 13, 10, 13, 10] []
-  | chunk (sz d w b : Bytes) : hexValue sz = some d.length → d ≠ [] → ChunkedBody w b →
+  | chunk (sz d w b : Bytes) : hexValue sz = some d.length → sz.length ≤ 16000 → d ≠ [] → ChunkedBody w b →
       ChunkedBody (sz ++ [13, 10] ++ d ++ [13, 10] ++ w) (d ++ b)
 
 end Spec
@@ -55,7 +56,7 @@ theorem spec_hexValue_hexLower (n : Nat) : Spec.hexValue (hexLower n) = some n :
   unfold hexLower
   rw [this]
 
-theorem writeLoop_chunked_spec (blk : Nat) (hb : 0 < blk) : ∀ (wf : Nat) (b w p : Bytes), b.length ≤ wf → Spec.ChunkedBody w p →
+theorem writeLoop_chunked_spec (blk : Nat) (hb : 0 < blk) (hb2 : blk < 4294967296) : ∀ (wf : Nat) (b w p : Bytes), b.length ≤ wf → Spec.ChunkedBody w p →
     Spec.ChunkedBody (writeLoop true blk wf b ++ w) (b ++ p) := by
   intro wf
   induction wf with
@@ -77,10 +78,213 @@ theorem writeLoop_chunked_spec (blk : Nat) (hb : 0 < blk) : ∀ (wf : Nat) (b w 
         intro h0
         have : (b.take (min b.length blk)).length = 0 := by rw [h0]; rfl
         rw [List.length_take] at this; omega
+      have hlt : (b.take (min b.length blk)).length < 4294967296 := by rw [List.length_take]; omega
       have := Spec.ChunkedBody.chunk (hexLower (b.take (min b.length blk)).length) (b.take (min b.length blk)) _ _
-        (spec_hexValue_hexLower _) htk hrec
+        (spec_hexValue_hexLower _) (by have := hexLower_length _ hlt; omega) htk hrec
       rw [← List.append_assoc (b.take _), List.take_append_drop] at this
       simpa [crlf, List.append_assoc] using this
+
+
+
+
+/-- one chunk with an arbitrary size line `sz` that `hexToInt` reads as the data length -/
+theorem readChunked_step_gen (rblk : Nat) (hr : 0 < rblk) (f : Nat) (i : Inp) (acc : List Bytes) (sz p tail : Bytes)
+    (hi : Live i) (hp0 : 0 < p.length) (hnolf : ∀ c ∈ sz ++ [13], c ≠ 10) (hlen : (sz ++ [13]).length ≤ 16001)
+    (hval : hexToInt (sz ++ [13]) = p.length)
+    (hd : i.data = sz ++ crlf ++ p ++ crlf ++ tail) :
+    ∃ bl : List Bytes, bl.reverse.flatten = p ∧
+      readChunkedLoop rblk (f + 1) i 0 acc =
+        readChunkedLoop rblk f (i.advance (sz.length + 2 + p.length + 2)) 0 (bl ++ acc) := by
+  have hd' : i.data = (sz ++ [13]) ++ 10 :: (p ++ crlf ++ tail) := by
+    rw [hd]; simp [crlf, List.append_assoc]
+  obtain ⟨hrl, hrest⟩ := readLine_line hi (sz ++ [13]) (p ++ crlf ++ tail) hnolf hlen hd'
+  have hi1 : Live (i.advance ((sz ++ [13]).length + 1)) := hi
+  obtain ⟨bl, hbl, heq⟩ := readInner_chunk rblk hr (p.length + 1) _ p.length acc hi1 (by omega)
+    (by rw [hrest]; simp only [List.length_append]; omega)
+  refine ⟨bl, ?_, ?_⟩
+  · rw [hbl, hrest]; simp [List.append_assoc]
+  · rw [readChunkedLoop]
+    simp only [live_dead hi, Bool.false_eq_true, if_false]
+    rw [hrl]
+    simp only []
+    rw [hval, heq]
+    simp only []
+    rw [advance_advance]
+    have hdat : ((i.advance ((sz ++ [13]).length + 1 + p.length)).data) = crlf ++ tail := by
+      rw [← advance_advance, advance_data, hrest]; simp [List.append_assoc]
+    have htwo : List.take 2 (crlf ++ tail) = crlf := by simp [crlf]
+    rw [hdat, htwo]
+    have hi2 : Live (i.advance ((sz ++ [13]).length + 1 + p.length)) := hi
+    have hne : ¬ p.length = 0 := by omega
+    have herr : (i.advance ((sz ++ [13]).length + 1 + p.length)).err = false := hi2.2
+    simp only [crlf, List.length_cons, List.length_nil, Nat.lt_irrefl, decide_false, Bool.or_false, if_false, hne, herr]
+    rw [advance_advance]
+    have hN : (sz ++ [13]).length + 1 + p.length + (0 + 1 + 1) = sz.length + 2 + p.length + 2 := by
+      simp only [List.length_append, List.length_cons, List.length_nil]
+    rw [hN]
+    congr 1
+    simp [Inp.advance, hi.2]
+
+theorem hexDigitValue_eq : Spec.hexDigitValue = hexVal := rfl
+
+/-- a chunk-size line of the grammar: only hex digits (either case) -/
+theorem spec_hex_chars : ∀ (sz : Bytes) (y : Nat) (v : Nat), sz.foldl Spec.hexStep (some y) = some v →
+    (∀ c ∈ sz, (hexVal c).isSome) ∧ hexLoop sz y = v := by
+  intro sz
+  induction sz with
+  | nil => intro y v h; simp at h; exact ⟨by simp, by simpa [hexLoop] using h⟩
+  | cons c t ih =>
+    intro y v h
+    simp only [List.foldl_cons, Spec.hexStep, hexDigitValue_eq] at h
+    cases hc : hexVal c with
+    | none =>
+      rw [hc] at h
+      have : ∀ l : Bytes, l.foldl Spec.hexStep none = none := by
+        intro l; induction l with
+        | nil => rfl
+        | cons a l ih => simp [List.foldl_cons, Spec.hexStep, ih]
+      rw [this] at h; exact absurd h (by simp)
+    | some d =>
+      rw [hc] at h
+      obtain ⟨h1, h2⟩ := ih _ _ h
+      refine ⟨?_, ?_⟩
+      · intro x hx
+        rcases List.mem_cons.mp hx with hx | hx
+        · subst hx; simp [hc]
+        · exact h1 x hx
+      · simp only [hexLoop, hc]; exact h2
+
+
+theorem hexVal_ranges (c : UInt8) (h : (hexVal c).isSome) :
+    (48 ≤ c.toNat ∧ c.toNat ≤ 57) ∨ (97 ≤ c.toNat ∧ c.toNat ≤ 102) ∨ (65 ≤ c.toNat ∧ c.toNat ≤ 70) := by
+  unfold hexVal at h
+  split at h
+  · rename_i h1
+    have a := UInt8.le_iff_toNat_le.mp h1.1
+    have b := UInt8.le_iff_toNat_le.mp h1.2
+    simp at a b; omega
+  · split at h
+    · rename_i h1
+      have a := UInt8.le_iff_toNat_le.mp h1.1
+      have b := UInt8.le_iff_toNat_le.mp h1.2
+      simp at a b; omega
+    · split at h
+      · rename_i h1
+        have a := UInt8.le_iff_toNat_le.mp h1.1
+        have b := UInt8.le_iff_toNat_le.mp h1.2
+        simp at a b; omega
+      · simp at h
+
+theorem hexchar_ne (c : UInt8) (h : (hexVal c).isSome) (k : UInt8)
+    (hk : ¬ ((48 ≤ k.toNat ∧ k.toNat ≤ 57) ∨ (97 ≤ k.toNat ∧ k.toNat ≤ 102) ∨ (65 ≤ k.toNat ∧ k.toNat ≤ 70))) : c ≠ k := by
+  intro hck; subst hck; exact hk (hexVal_ranges c h)
+
+theorem hexchar_not_blank (c : UInt8) (h : (hexVal c).isSome) : isBlank c = false := by
+  have hr := hexVal_ranges c h
+  unfold isBlank
+  have h32 : (c == 32) = false := by
+    have := hexchar_ne c h 32 (by decide); simpa using this
+  have h13 : ¬ c ≤ 13 := by
+    intro hle
+    have b := UInt8.le_iff_toNat_le.mp hle
+    simp at b; omega
+  simp [h32, h13]
+
+/-- `hexToInt` reads any RFC chunk-size line (1*HEXDIG, either case, value below 2^32), followed by its CR -/
+theorem hexToInt_spec (sz : Bytes) (n : Nat) (hv : Spec.hexValue sz = some n) (hn : n < 4294967296) :
+    hexToInt (sz ++ [13]) = n ∧ (∀ c ∈ sz ++ [13], c ≠ 10) := by
+  unfold Spec.hexValue at hv
+  cases sz with
+  | nil => simp at hv
+  | cons c t =>
+    simp only [List.isEmpty_cons, Bool.false_eq_true, if_false] at hv
+    obtain ⟨hch, hloop⟩ := spec_hex_chars (c :: t) 0 n hv
+    have hc := hch c List.mem_cons_self
+    constructor
+    · unfold hexToInt
+      have h1 : List.dropWhile isBlank (c :: t ++ [13]) = c :: t ++ [13] := by
+        simp only [List.cons_append]
+        rw [List.dropWhile_cons_of_neg (by simp [hexchar_not_blank c hc])]
+      rw [h1]
+      have h2 : skipPlus (c :: t ++ [13]) = c :: t ++ [13] := by
+        simp only [List.cons_append]
+        unfold skipPlus
+        split
+        · rename_i heq; simp only [List.cons.injEq] at heq
+          exact absurd heq.1 (hexchar_ne c hc 43 (by decide))
+        · rfl
+      rw [h2]
+      have h3 : skip0x (c :: t ++ [13]) = c :: t ++ [13] := by
+        unfold skip0x
+        split
+        · rename_i x h t' heq
+          have hx : x ∈ c :: t ++ [13] := by rw [heq]; simp
+          have hx2 : x ≠ 120 ∧ x ≠ 88 := by
+            simp only [List.cons_append, List.mem_cons, List.mem_append, List.not_mem_nil, or_false] at hx
+            rcases hx with hx | hx | hx
+            · subst hx; exact ⟨hexchar_ne x hc 120 (by decide), hexchar_ne x hc 88 (by decide)⟩
+            · have := hch x (List.mem_cons_of_mem _ hx)
+              exact ⟨hexchar_ne x this 120 (by decide), hexchar_ne x this 88 (by decide)⟩
+            · subst hx; decide
+          have : (x == 120 || x == 88) = false := by simp [hx2.1, hx2.2]
+          simp [this, heq]
+        · rfl
+      rw [h3]
+      have hl : hexLoop (c :: t ++ [13]) 0 = n := by
+        have : ∀ (xs : Bytes) (y : Nat), (∀ c ∈ xs, (hexVal c).isSome) → hexLoop (xs ++ [13]) y = hexLoop xs y := by
+          intro xs
+          induction xs with
+          | nil => intro y _; simp [hexLoop, hexVal_cr]
+          | cons a xs ih =>
+            intro y hx
+            have ha := hx a List.mem_cons_self
+            cases hva : hexVal a with
+            | none => rw [hva] at ha; simp at ha
+            | some d =>
+              simp only [List.cons_append, hexLoop, hva]
+              exact ih _ (fun c hc => hx c (List.mem_cons_of_mem _ hc))
+        rw [this (c :: t) 0 hch, hloop]
+      rw [hl]; exact Nat.mod_eq_of_lt hn
+    · intro x hx
+      rcases List.mem_append.mp hx with h | h
+      · exact hexchar_ne x (hch x h) 10 (by decide)
+      · simp only [List.mem_singleton] at h; subst h; decide
+
+/-- **reader conformance.**  The chunked loop of `readBody` decodes every RFC 7230 chunked body (size lines in either
+case, with leading zeros, payload below 2^32 bytes) into its payload -/
+theorem readChunked_rfc (rblk : Nat) (hr : 0 < rblk) : ∀ (w b : Bytes), Spec.ChunkedBody w b →
+    (∀ (f : Nat) (i : Inp) (acc : List Bytes) (rest : Bytes), Live i → w.length < f → b.length < 4294967296 →
+      i.data = w ++ rest →
+      ∃ bl : List Bytes, bl.reverse.flatten = b ∧
+        readChunkedLoop rblk f i 0 acc = (bl ++ acc, i.advance w.length) ∧ (i.advance w.length).data = rest) := by
+  intro w b hcb
+  induction hcb with
+  | last =>
+    intro f i acc rest hi hf _ hd
+    obtain ⟨f0, rfl⟩ : ∃ f0, f = f0 + 1 := ⟨f - 1, by omega⟩
+    obtain ⟨h1, h2⟩ := readChunked_end rblk f0 i acc rest hi (by simpa [lastChunk] using hd)
+    exact ⟨[], by simp, by simpa using h1, by simpa using h2⟩
+  | chunk sz d w' b' hv hsz hd0 _ ih =>
+    intro f i acc rest hi hf hb hd
+    obtain ⟨f0, rfl⟩ : ∃ f0, f = f0 + 1 := ⟨f - 1, by omega⟩
+    have hdl : 0 < d.length := List.length_pos_iff.mpr hd0
+    have hwl : (sz ++ [13, 10] ++ d ++ [13, 10] ++ w').length = sz.length + 2 + d.length + 2 + w'.length := by
+      simp; omega
+    obtain ⟨hval, hnolf⟩ := hexToInt_spec sz d.length hv (by simp only [List.length_append] at hb; omega)
+    obtain ⟨bl1, hbl1, heq1⟩ := readChunked_step_gen rblk hr f0 i acc sz d (w' ++ rest) hi hdl hnolf
+      (by simp only [List.length_append, List.length_cons, List.length_nil]; omega) hval
+      (by rw [hd]; simp [crlf, List.append_assoc])
+    have hi' : Live (i.advance (sz.length + 2 + d.length + 2)) := hi
+    have hd2 : (i.advance (sz.length + 2 + d.length + 2)).data = w' ++ rest := by
+      rw [advance_data, hd]
+      have : sz.length + 2 + d.length + 2 = (sz ++ [13, 10] ++ d ++ [13, 10]).length := by simp; omega
+      rw [this, List.append_assoc _ w' rest, List.drop_left]
+    obtain ⟨bl2, hbl2, heq2, hrest2⟩ := ih f0 _ (bl1 ++ acc) rest hi' (by omega)
+      (by simp only [List.length_append] at hb; omega) hd2
+    refine ⟨bl2 ++ bl1, ?_, ?_, ?_⟩
+    · simp only [List.reverse_append, List.flatten_append]; rw [hbl1, hbl2]
+    · rw [heq1, heq2, advance_advance, hwl]; simp [List.append_assoc]
+    · rw [hwl, ← advance_advance]; exact hrest2
 
 
 end C10Spec
